@@ -3,7 +3,7 @@
 One case = one script (a pure function of (seed, index), produced by harness/c13.cpp).  For every case this driver
   1. runs the script in the SERIAL build (variant asan: no OpenMP, ASan+UBSan) -> reference observation file,
   2. runs the same script in the OpenMP build (variant omp: g++ -O2 -fopenmp, libgomp) under a list of thread settings
-     OMP_NUM_THREADS in {1,2,3,7,16} x OMP_DYNAMIC x OMP_WAIT_POLICY x repetitions, plus a CPU-affinity squeeze (8 threads on two CPUs via
+     OMP_NUM_THREADS in {1,2,3,7,16} (thorough: also 4 and 8) x OMP_DYNAMIC x OMP_WAIT_POLICY x 2 repetitions, plus a CPU-affinity squeeze (8 threads on two CPUs via
      taskset, which forces preemption inside critical sections), and compares every observation file with the reference  (oracle i),
   3. on a subset of the cases runs the script in the clang + libomp + Archer + ThreadSanitizer build (variant omptsan) at 4 and 8 threads,
      parses the TSan logs and reports every report block with a frame inside the repository (oracle ii); the observation files of these
@@ -44,7 +44,7 @@ def omp_settings(tier, index):
     """list of dicts: name, threads, dynamic, wait, taskset"""
     out = []
     if tier == "thorough":
-        threads, reps = [1, 2, 3, 4, 7, 8, 16], 5
+        threads, reps = [1, 2, 3, 4, 7, 8, 16], 2
     else:
         threads, reps = [1, 2, 3, 7, 16], 2
     j = 0
@@ -60,7 +60,7 @@ def omp_settings(tier, index):
     return out
 
 def tsan_selected(tier, index):
-    if tier == "thorough": return index % 2 == 0 or index % 8 == 2       # half of the scripts + every Fourier script
+    if tier == "thorough": return index % 3 == 0                          # a third of the scripts, every script kind (3 and 8 are coprime)
     return (index // 8 + index % 8) % 3 == 0                             # 8 of 24, every script kind once
 
 def tsan_settings(tier, index):
@@ -360,6 +360,20 @@ def run_setting(sh, cs, bins, seed, tier, workdir, st):
         if variant == "omp": sh.omp_wall += rr["wall"]
         else: sh.tsan_wall += rr["wall"]
     d2, s2, c2, g2, pv2 = parse_protocol(rr["stdout"])
+    if variant == "omptsan":      # race reports first: they are printed when the race happens, also by a run that dies later
+        text = ""
+        for lf in rr["tsan_logs"]:
+            try:
+                with open(lf, "r", errors="replace") as f: text += f.read()
+            except OSError: pass
+        reports = parse_tsan(text)
+        tv, unatt = tsan_violations(reports)
+        with sh.lock:
+            sh.tsan_runs += 1; sh.tsan_reports += len(reports); sh.tsan_unattributed += unatt
+            if "Archer detected OpenMP application with TSan" in (rr["stderr"] + rr["stdout"]): sh.archer_active += 1
+            else: sh.archer_inactive += 1
+        for key, rep in tv.items():
+            cs.add_v(key, dict(setting=st["name"], report=rep["text"]), st)
     if s2 is None or (rr["rc"] != 0 and variant != "omptsan"):
         # the process died inside the case: key = how it died + what it was doing (last phase marker of the partial observation file)
         try: phase = parse_obs(out_file)["last_phase"]
@@ -402,19 +416,6 @@ def run_setting(sh, cs, bins, seed, tier, workdir, st):
         if variant != "omp": key = key.replace("digest-differs:", "digest-differs-clang-tsan:", 1)
         cs.add_v(key, det, st)
     if variant == "omptsan":
-        text = ""
-        for lf in rr["tsan_logs"]:
-            try:
-                with open(lf, "r", errors="replace") as f: text += f.read()
-            except OSError: pass
-        reports = parse_tsan(text)
-        tv, unatt = tsan_violations(reports)
-        with sh.lock:
-            sh.tsan_runs += 1; sh.tsan_reports += len(reports); sh.tsan_unattributed += unatt
-            if "Archer detected OpenMP application with TSan" in (rr["stderr"] + rr["stdout"]): sh.archer_active += 1
-            else: sh.archer_inactive += 1
-        for key, rep in tv.items():
-            cs.add_v(key, dict(setting=st["name"], report=rep["text"]), st)
         for lf in rr["tsan_logs"]:
             try: os.remove(lf)
             except OSError: pass
